@@ -269,6 +269,19 @@ def normalizeStringForPostscript(s, allowSpaces=True):
             c = unicodedata.normalize("NFKD", c)
             if not set(c) < _postscriptFontNameAllowed:
                 c = c.encode("ascii", errors="replace").decode()
+            # The decomposition can itself produce characters that must not
+            # appear (e.g. NO-BREAK SPACE -> " ", FULLWIDTH LEFT PARENTHESIS -> "("),
+            # and ASCII control characters survive the ascii encoding: filter again.
+            c = "".join(
+                (
+                    ch
+                    if ch in _postscriptFontNameAllowed or (ch == " " and allowSpaces)
+                    else "?"
+                )
+                for ch in c
+                if ch not in _postscriptFontNameExceptions
+                and not (ch == " " and not allowSpaces)
+            )
         normalized.append(c)
     return "".join(normalized)
 
